@@ -105,6 +105,9 @@ func (b *Builder) Workload(wl WL) *Builder {
 		ndev := 1
 		if ps.Shape.NumDev != "" {
 			fmt.Sscanf(ps.Shape.NumDev, "%d", &ndev)
+			if ndev < 1 || ndev > 8 { // malformed literals (C10 inputs): the builder itself stays sane
+				ndev = 1
+			}
 		}
 		groups := ps.Groups
 		if sharing && (placed || ps.State == StBinding) && len(groups) == 0 {
